@@ -38,7 +38,7 @@ def _effects(outcome):
             out.append(('store', t[6:].split(' = ')[0], t))
         elif t.startswith('new '):
             out.append(('new', t[4:].split(' = ')[0], t))
-        elif t.startswith('loop '):
+        elif t.startswith('loop ') or t.startswith('LOOP'):
             out.append(('loop', 'loop', t))
         else:
             out.append(('exit', t.split(' ')[0], t))
@@ -104,6 +104,8 @@ def _judge(want, have):
     if wsk != hsk:
         missing = [x for x in wsk if x not in hsk]
         extra = [x for x in hsk if x not in wsk]
+        if any(k == 'loop' for k, _ in missing + extra):
+            return 'undecided', 'a nested loop was added or removed (its body is compared as text only)'
         if any(k in ('store', 'call') for k, _ in missing + extra) or (missing + extra and all(k == 'exit' for k, _ in missing + extra)):
             return 'bad', 'the externally visible steps differ (not in the reviewed behaviour: %s; missing: %s)' % (extra or '-', missing or '-')
         return 'undecided', 'different steps on local objects'
